@@ -11,11 +11,12 @@
 (* dispatches a logged call record c (see lib/ackcommon.py: call()).              *)
 (*                                                                               *)
 (* Facts of the code preserved here:                                             *)
-(*  - a segment node joins the tree only at its first error, under the current     *)
-(*    set, and only while that set is open;                                        *)
-(*  - a segment-level error reported anywhere else (cursor on an ISA/GS/ST node,   *)
-(*    no set open, set already closed) is kept on the innermost loop still open    *)
-(*    with the generic code 5 (set) / 1 (group) / 024 (interchange);               *)
+(*  - a segment node joins the tree only at its first error, under the set opened  *)
+(*    last (also when that set is already closed, or belongs to an earlier group);  *)
+(*  - a segment-level error that cannot be held by a segment node (cursor on an     *)
+(*    ISA/GS/ST node, no set yet), or whose set is already closed, is (also) kept    *)
+(*    on the innermost loop still open with the generic code 5 (set) / 1 (group) /   *)
+(*    024 (interchange);                                                            *)
 (*  - gs_error without a group goes to the interchange (024), st_error without a   *)
 (*    set to the group (1);                                                        *)
 (*  - element errors raised while the cursor is an ISA/GS/ST node are stored in    *)
@@ -85,17 +86,21 @@ GsError(t, c) == IF t.gs = 0 THEN IsaError(t, [c EXCEPT !.code = "024"])        
                  ELSE [t EXCEPT !.nodes[t.gs].errs = Append(@, <<c.code, "">>)]
 StError(t, c) == IF t.st = 0 THEN GsError(t, [c EXCEPT !.code = "1"])                    \* no set yet: reported at the group
                  ELSE [t EXCEPT !.nodes[t.st].errs = Append(@, <<c.code, "">>)]
-(* seg_error: on the current segment node while its set is open, else on the innermost loop still open *)
-InOpenSetBody(t) == t.segk = "seg" /\ (t.seg_added \/ (t.st # 0 /\ ~t.nodes[t.st].closed))
+(* seg_error: kept with its segment under the set opened last whenever there is one (held); when it is not held, or that set is already
+   closed, the innermost loop still open carries the level's generic code as well (so such an error can be in the tree twice) *)
+Held(t) == t.segk = "seg" /\ (t.seg_added \/ t.st # 0)
 OpenLoop(t) == IF t.st # 0 /\ ~t.nodes[t.st].closed THEN t.st
                ELSE IF t.gs # 0 /\ ~t.nodes[t.gs].closed THEN t.gs
                ELSE t.isa                                                                \* 0: nothing to attach to (only logged)
 LoopCode(kind) == CASE kind = "st" -> "5" [] kind = "gs" -> "1" [] OTHER -> "024"
 SegError(t, c) ==
-  IF InOpenSetBody(t) THEN LET t1 == AddCurSeg(t) IN [t1 EXCEPT !.nodes[t1.segi].errs = Append(@, <<c.code, c.val>>)]
-  ELSE LET i == OpenLoop(t) IN
-       IF i = 0 THEN [t EXCEPT !.dropped = @ + 1]
-       ELSE [t EXCEPT !.nodes[i].errs = Append(@, <<LoopCode(t.nodes[i].t), "">>)]
+  LET held == Held(t)
+      t1 == IF held THEN LET u == AddCurSeg(t) IN [u EXCEPT !.nodes[u.segi].errs = Append(@, <<c.code, c.val>>)] ELSE t
+      also == ~held \/ (t1.st # 0 /\ t1.nodes[t1.st].closed)
+      i == OpenLoop(t1)
+  IN IF ~also THEN t1
+     ELSE IF i = 0 THEN (IF held THEN t1 ELSE [t1 EXCEPT !.dropped = @ + 1])
+     ELSE [t1 EXCEPT !.nodes[i].errs = Append(@, <<LoopCode(t1.nodes[i].t), "">>)]
 (* an error located by its reference designator (c.rpos > 0) gets a node of its own when the element cursor stands elsewhere *)
 Relocate(t, c) ==
   IF c.rpos > 0 /\ t.segk # "none" /\ (~t.ele_set \/ t.epar # EleParent(t) \/ <<t.pele.pos, t.pele.sub>> # <<c.rpos, c.rsub>>)
